@@ -18,6 +18,10 @@ MC:      spec/Arshal.tla!Unmarshal is the documented merge: null zeroes, scalars
          unmentioned fields and entries are kept (FrameLaw).
 Replay:  every (type, pre-existing value, input, options) with the predicted success and the
          predicted resulting Go value (nil-ness included), on the real Unmarshal.
+TV:      (model) random types, random pre-existing values, fitting / ill-fitting / mutated texts;
+         TLC (Trace_ArshalModel) recomputes success and the exact resulting value under 6 option
+         sets (StringifyNumbers, RejectUnknownMembers, MatchCaseInsensitiveNames,
+         AllowDuplicateNames).
 """
 
 
@@ -33,6 +37,10 @@ def run(ctx):
     D = 1
     m = af.run_model(ctx, "into", af.within(cand, D, 400, 12000 if ctx.quick else 200000), {"u"}, "C14", D=D)
     af.run_model(ctx, "mergelaw", af.within(cand, D, 10 ** 9, 15000 if ctx.quick else 250000), {"g"}, "C14", uopts=[af.O(), af.O(sn=True)], D=D)
+    # random types, pre-existing values and (also ill-fitting, mutated) texts beyond the enumerated
+    # universe, validated by TLC against the same model: success and the exact resulting Go value
+    nm = 8000 if ctx.quick else 400000
+    ctx.tv("arshalmodel", "Trace_ArshalModel", {"seed": ctx.seed, "n": nm, "kinds": "u", "prop": "C14"})
     ctx.assumptions.append("Arshal model universe: see C04; inputs are compact texts of a small grammar per type (fitting values, wrong kinds, nulls, unknown, duplicated and case-variant names, out-of-range numbers)")
     ctx.cov["distinct_nontrivial"] = n
     ctx.cov["rule"] = "random (type, j1..jk) tuples regenerated from logged seeds"
